@@ -645,13 +645,15 @@ fn run_corr(args: &Args, search: bool) -> Report {
 // ------------------------------------------------------------------------------- known findings
 fn run_known(_args: &Args) -> Report {
     let mut rep = Report::new();
-    // (id, start, setter, value, href the pinned code produces; the entry reproduces when it still does)
-    let table: [(&str, &str, &str, &str, &str); 14] = [
+    // (id, start, setter, value, href the pinned code produces; the entry reproduces when it still does).
+    // F-C07-4 of DESIGN.md (href := http://0300.168.0xF0 on a file URL) is not a defect of url::quirks:
+    // set_href gives the Standard's http://192.168.0.240/; the vector is listed in expected_failures.txt
+    // because url/tests/wpt.rs has no "href" case in run_setter_test.
+    let table: [(&str, &str, &str, &str, &str); 13] = [
         ("F-C07-1", "http://example.net/path", "hostname", "example.com:8080", "http://example.com/path"),
         ("F-C07-2", "non-spec:/.//p", "hostname", "h", "non-spec://h/.//p"),
         ("F-C07-2b", "non-spec:/", "pathname", "//p", "non-spec://p"),
         ("F-C07-3", "file:///unicorn", "pathname", "//\\/", "file:///"),
-        ("F-C07-4", "file:///var/log/system.log", "href", "http://0300.168.0xF0", "http://192.168.0.240/"),
         ("F-C07-5", "foo:///some/path", "pathname", "", "foo:///"),
         ("F-C07-6", "a:/x", "host", "::1", "a:///x"),
         ("F-C07-7", "https://h", "protocol", "file", "https://h/"),
@@ -659,8 +661,8 @@ fn run_known(_args: &Args) -> Report {
         ("F-C07-9", "http://[::1]:81/p", "port", "\n", "http://[::1]/p"),
         ("F-C07-10", "file://monkey/", "hostname", "?", "file://monkey/"),
         ("F-C07-11", "ws://u@h/", "pathname", "\t/", "ws://u@h//"),
+        ("F-C07-12", "http://h/a", "pathname", "/C|/..", "http://h/C|/"),
         ("F-C03-5", "non-spec:/.//double", "host", "", "non-spec:///.//double"),
-        ("", "", "", "", ""),
     ];
     for (id, start, name, v, old) in table.iter().filter(|t| !t.0.is_empty()) {
         let got = match Url::parse(start).ok().and_then(|u| impl_step(&u, name, v)) {
